@@ -57,16 +57,17 @@ def counter_part(ctx):
         raise kit.Inconclusive("transition cover incomplete: %d paths for %d transitions" % (len(behs), g.generated))
     ctx.cov["counter_transitions_emitted"] = len(behs)
     ctx.cov["counter_transition_cover_complete"] = True
-    sim = []
-    if ctx.thorough:
-        s = ctx.tlc("redis", "HotKeySim", "Sim_HotKey.cfg", mode="sim", workers=1, sim_num=150, sim_depth=60,
-                    seed=ctx.seed, deadlock=False, timeout=300)
-        if s.timeout or s.violated or (s.error and "@@BEH" not in s.stdout):
-            raise kit.Inconclusive("counter simulation failed: " + (s.error or str(s.violated))[:500])
-        sim = [p for (tag, p) in s.prints if tag == "BEH"]
-        if len(sim) < 100:
-            raise kit.Inconclusive("only %d simulated counter behaviours" % len(sim))
-        ctx.cov["counter_deep_histories"] = len(sim)
+    # deeper seeded histories (7 keys, capacities 2..5, 60 accesses): long enough for a corrupted structure to
+    # surface as a property break (new key admitted, grows hotter than a stranded key, next admission evicts)
+    nsim = 150 if ctx.thorough else 30
+    s = ctx.tlc("redis", "HotKeySim", "Sim_HotKey.cfg", mode="sim", workers=1, sim_num=nsim, sim_depth=80,
+                seed=ctx.seed, deadlock=False, timeout=300)
+    if s.timeout or s.violated or (s.error and "@@BEH" not in s.stdout):
+        raise kit.Inconclusive("counter simulation failed: " + (s.error or str(s.violated))[:500])
+    sim = [p for (tag, p) in s.prints if tag == "BEH"]
+    if len(sim) < nsim * 2 // 3:
+        raise kit.Inconclusive("only %d simulated counter behaviours" % len(sim))
+    ctx.cov["counter_deep_histories"] = len(sim)
     allb = behs + sim
     bfile = os.path.join(ctx.work, "counter-behaviours.ndjson")
     kit.write_ndjson(bfile, allb)
@@ -169,25 +170,61 @@ def collector_part(ctx):
         raise kit.Inconclusive("only %d collector scripts emitted" % len(scripts))
     sfile = os.path.join(ctx.work, "collector-scripts.ndjson")
     kit.write_ndjson(sfile, scripts)
+    # targeted scripts: every transition of a small collector model that enters the window "evictStale
+    # drops a key to zero and the survivors are out of order" (mixed last-update minutes + heat-1 key)
+    wr = ctx.tlc("redis", "HotKeyCollectorGen", "Win_HotKeyCollector.cfg", mode="mc", workers=2, timeout=300)
+    wins = [p for (tag, p) in wr.prints if tag == "WIN"]
+    if wr.timeout or not wr.ok or len(wins) < 3:
+        raise kit.Inconclusive("window script generation failed (%d scripts): %s" % (len(wins), (wr.error or str(wr.violated))[:400]))
+    wfile = os.path.join(ctx.work, "collector-window-scripts.ndjson")
+    kit.write_ndjson(wfile, wins)
+    winrep, targeted = (6, 16) if q else (16, 100)
     tfile = os.path.join(ctx.work, "collector-trace.ndjson")
     hfile = os.path.join(ctx.work, "collector-histories.ndjson")
     nrand, heavy = (40, 4) if q else (400, 40)
-    ctx.harness(["c19-collector", "-in", sfile, "-n", str(nrand), "-heavy", str(heavy), "-trace", tfile, "-sum", hfile],
-                timeout=900)
+    ctx.harness(["c19-collector", "-in", sfile, "-n", str(nrand), "-heavy", str(heavy), "-trace", tfile, "-sum", hfile,
+                 "-win", wfile, "-winrep", str(winrep), "-targeted", str(targeted)], timeout=900)
     events = kit.read_ndjson(tfile)
     hists = kit.read_ndjson(hfile)
-    if len(hists) != len(scripts) + nrand:
-        raise kit.Inconclusive("collector driver: %d histories for %d scripts" % (len(hists), len(scripts) + nrand))
+    expected = len(scripts) + nrand + len(wins) * winrep + targeted
+    if len(hists) != expected:
+        raise kit.Inconclusive("collector driver: %d histories, expected %d" % (len(hists), expected))
     for h in hists:
         if h.get("panic"):
             raise kit.Inconclusive("collector history %d panicked: %s" % (h["h"], h["panic"]))
     straddle = sum(1 for h in hists if h["straddles"])
     overlap = sum(1 for h in hists if h["overlap"])
-    ctx.cov["collector_histories"] = {"from_tlc": len(scripts), "random": nrand, "events": len(events),
+    ctx.cov["collector_histories"] = {"from_tlc": len(scripts), "random": nrand, "from_tlc_window": len(wins) * winrep,
+                                      "targeted": targeted, "events": len(events),
                                       "with_tick_inside_a_job": straddle,
                                       "with_reader_overlapping_a_job": overlap,
                                       "reports_read_by_parallel_readers": sum(h["ploops"] for h in hists)}
-    if straddle < 5 or sum(h["ploops"] for h in hists) < 1000:
+    # the evictStale corner on the REAL run: published keys with different last-update minutes, a stale key
+    # halved below a fresh one that it preceded, and a stale key dropping to zero in the same pass
+    # (strong: at least as many keys drop as fresh keys survive)
+    win_hist, strong_hist = set(), set()
+    last_rep = []
+    for e in events:
+        if e["ev"] == "reset":
+            last_rep = []
+        elif e["ev"] == "collect":
+            last_rep = e["rep"]
+        elif e["ev"] == "evict":
+            prev = last_rep
+            last_rep = e["rep"]
+            stale = [x["v"] != 0 and e["m0"] > x["lut"] for x in prev]
+            dropped = sum(1 for x, st in zip(prev, stale) if st and x["v"] // 2 == 0)
+            fresh = sum(1 for x, st in zip(prev, stale) if not st and x["v"] != 0)
+            cross = any(stale[i] and not stale[j] and 0 < prev[i]["v"] // 2 < prev[j]["v"]
+                        for i in range(len(prev)) for j in range(i + 1, len(prev)))
+            if dropped and cross:
+                win_hist.add(e["h"])
+                if dropped >= fresh:
+                    strong_hist.add(e["h"])
+    ctx.cov["collector_histories"]["through_evict_window_drop_and_reorder"] = len(win_hist)
+    ctx.cov["collector_histories"]["of_which_drops_ge_fresh_survivors"] = len(strong_hist)
+    ctx.cov["collector_histories"]["window_scripts_from_tlc"] = len(wins)
+    if straddle < 5 or sum(h["ploops"] for h in hists) < 1000 or len(strong_hist) < 3:
         raise kit.Inconclusive("collector driver did not exercise the windows: %s" % ctx.cov["collector_histories"])
     for h in hists:
         ctx.case(key="coll:" + json.dumps(h["script"], sort_keys=True),
@@ -307,7 +344,7 @@ def run(ctx):
     ctx.build()
     ctx.assumptions += [
         "counter capacity >= 1 (the processor uses 50; capacity 0 makes Incr dereference nil and is reported as a note)",
-        "exhaustive counter model: <= 7 accesses over 4 keys, capacities 1..3, <= 2 latches/frees (quick: 6 accesses, 3 keys); deeper histories only sampled",
+        "exhaustive counter model: <= 7 accesses over 4 keys, capacities 1..3, <= 2 latches/frees (quick: 7 accesses, 3 keys); deeper histories only sampled",
         "exhaustive collector model: 3 keys, 2 counters, capacity 2, <= 3 periods, <= 4 accesses, 2 clock ticks, 1 reader; an access is only scheduled between jobs (it commutes with every step but the latch)",
         "the logarithmic counter is modelled as bounded nondeterminism (val' in val..min(255, val+n), a zero counter always leaves zero); its distribution is not checked",
         "collect and evictStale never overlap each other (both run on Collector.Run's goroutine)",
